@@ -45,4 +45,82 @@ def tablesAgree : Bool :=
   && optionTable.all (fun r =>
       r.2.2.1.all (fun k => r.2.2.2.contains k) && r.2.2.2.all (fun k => !r.2.1 || r.2.2.1.contains k))
 
+/-! ## options inside a mechanism's `config` (measured table)
+
+`mechOptionTable` is measured on the running code on every check run: per mechanism type and place below its `config`,
+which option names the real file validation lets pass and which names the real type factory reads (the factory refuses
+every other name when the mechanism is created, whatever source the configuration came from). -/
+
+abbrev MechRow := String × String × String × Bool × List String × Bool × List String
+
+namespace MechRow
+def cat (r : MechRow) : String := r.1
+def typ (r : MechRow) : String := r.2.1
+def place (r : MechRow) : String := r.2.2.1
+/-- the file validation refuses names it does not list at this place -/
+def schemaClosed (r : MechRow) : Bool := r.2.2.2.1
+def schemaNames (r : MechRow) : List String := r.2.2.2.2.1
+/-- the type factory refuses names it does not read at this place; `false`: it takes no notice of what stands there -/
+def loaderClosed (r : MechRow) : Bool := r.2.2.2.2.2.1
+def loaderNames (r : MechRow) : List String := r.2.2.2.2.2.2
+
+/-- the file validation lets the option name pass -/
+def schemaAccepts (r : MechRow) (key : String) : Bool := !r.schemaClosed || r.schemaNames.contains key
+/-- the type factory reads the option -/
+def loaderReads (r : MechRow) (key : String) : Bool := r.loaderClosed && r.loaderNames.contains key
+/-- the type factory refuses the name (the mechanism is not created, from a file and from variables alike) -/
+def loaderRefuses (r : MechRow) (key : String) : Bool := r.loaderClosed && !r.loaderNames.contains key
+end MechRow
+
+def mechRow? (cat typ place : String) : Option MechRow :=
+  mechOptionTable.find? (fun r => r.cat == cat && r.typ == typ && r.place == place)
+
+/-- what the property demands of one measured row: where the factory checks names and the schema does too, both know the
+    same names (where the schema leaves the names open the factory still refuses what it does not read, from both
+    sources alike); where the factory takes no notice of the config (its factory function ignores the parameter), the
+    schema accepts no option at all – nothing is accepted and then ignored -/
+def mechRowOk (r : MechRow) : Bool :=
+  if r.loaderClosed then
+    !r.schemaClosed || (r.loaderNames.all (fun k => r.schemaNames.contains k) && r.schemaNames.all (fun k => r.loaderNames.contains k))
+  else
+    r.schemaClosed && r.schemaNames.isEmpty && ignoresConfig.contains (r.cat, r.typ)
+
+/-- the measured table agrees, and it was measured for every mechanism type that has a factory -/
+def mechTablesAgree : Bool :=
+  mechMeasured && mechOptionTable.all mechRowOk
+  && loaderMechTypes.all (fun t => t.1 == "cache" || (mechRow? t.1 t.2 "").isSome)
+
+/-- a mechanism declaration of the catalogue as far as names go: category, type, and the options it uses
+    (place below `config`, name) -/
+structure MechDecl where
+  cat : String
+  typ : String
+  options : List (String × String)
+
+namespace MechDecl
+/-- the type factory creates the mechanism: the type has a factory and no option name is refused -/
+def factoryAccepts (d : MechDecl) : Bool :=
+  loaderSupportsType d.cat d.typ && d.options.all fun o =>
+    match mechRow? d.cat d.typ o.1 with
+    | some r => !r.loaderRefuses o.2
+    | none => false
+/-- the file validation lets the declaration pass -/
+def validationAccepts (d : MechDecl) : Bool :=
+  schemaAcceptsType d.cat d.typ && d.options.all fun o =>
+    match mechRow? d.cat d.typ o.1 with
+    | some r => r.schemaAccepts o.2
+    | none => false
+/-- variables are not validated: the declaration is usable when the factory creates the mechanism -/
+def usableFromEnv (d : MechDecl) : Bool := d.factoryAccepts
+/-- a file has to pass the validation first -/
+def usableFromFile (d : MechDecl) : Bool := d.validationAccepts && d.factoryAccepts
+/-- every option stands at a measured place where the factory checks names (what is handed to a factory that ignores
+    its config is no option of the mechanism) -/
+def effective (d : MechDecl) : Bool :=
+  d.options.all fun o =>
+    match mechRow? d.cat d.typ o.1 with
+    | some r => r.loaderClosed
+    | none => false
+end MechDecl
+
 end Heimdall.Config.Schema
